@@ -45,8 +45,8 @@ PROPS = {}
 
 PROPS["C15"] = {
     "level": "proof",
-    "budget": {"quick": [("c15", 3000), ("c15s", 8)], "thorough": [("c15", 200000), ("c15s", 600)], "search": [("c15", 400000), ("c15s", 1200)]},
-    "rule": "random store/retrieve sequences (1-60 ops, 1-8 distinct keys spread over u64, depths 0-5 plus 255, evals incl. i32::MIN/MAX) on the real TranspositionTable; a case is non-trivial when it contains both a store rejected by a deeper record and one that replaced/tied; distinct = distinct op traces; and at the level of the search (c15s): several searches on one Searcher, deeper first and shallower later, on a position and its successors, the depth of the record kept for each watched position observed before and after every search and judged (never shallower, never lost), table digest compared with the model",
+    "budget": {"quick": [("c15", 3000), ("c15s", 8), ("c15big", 1300000)], "thorough": [("c15", 200000), ("c15s", 600), ("c15big", 6000000)], "search": [("c15", 400000), ("c15s", 1200), ("c15big", 6000000)]},
+    "rule": "random store/retrieve sequences (1-60 ops, 1-8 distinct keys spread over u64, depths 0-5 plus 255, evals incl. i32::MIN/MAX) on the real TranspositionTable; a case is non-trivial when it contains both a store rejected by a deeper record and one that replaced/tied; distinct = distinct op traces; and at the level of the search (c15s): several searches on one Searcher, deeper first and shallower later, on a position and its successors, the depth of the record kept for each watched position observed before and after every search and judged (never shallower, never lost), table digest compared with the model; and a BIG table (c15big: more than a million records under consecutive keys, then shallower / equal / deeper stores and lookups for keys inside the range, at its ends and new keys)",
     "trusted_base": [KERNEL, AXIOMS, TIE, "std::collections::HashMap and Std.HashMap both behave as finite maps under get/insert (modelled, not verified)"],
     "assumptions": ["HashMap::get/insert behave as a finite map", "the model's fidelity outside the generated op sequences rests on reading the 20-line store/retrieve code"],
     "finding_key": lambda sf: None,
